@@ -819,7 +819,7 @@ def judge_adf(text, a, queries, sort="none"):
         if r is None:
             bad.append(("missing", "no answer to query %s" % " ".join(q)))
             continue
-        rw = r.split()
+        rw = ["" if x == "-" else x for x in r.split()]     # "-" is the interpretation of a framework without statements
         kind = q[0]
         if kind == "grounded":
             got = rw[1] if len(rw) > 1 else ""
@@ -990,7 +990,7 @@ def ng_queries(rng):
 
 def check_C05(ck, res, replay):
     run_adf_check(ck, res, replay, "C05", ng_queries, 1500, 30000, nmax_q=7, nmax_t=9, tt3_q=500, tt3_t=20000,
-                  ties=("TieLeaf", "TieMoreModels", "TieFlagRand"), seeds=True, case_timeout=8000)
+                  ties=("TieLeaf", "TieMoreModels", "TieFlagRand", "TieFlagExhaust"), seeds=True, case_timeout=8000)
     return ck.finish(res, level_of(res.pid), ASSUME_COMMON + ["rand::StdRng is an abstract stream of u64 draws, reproduced by an identically seeded generator in the harness"])
 
 
